@@ -2,12 +2,12 @@
 # Development-time helper: runs every property's quick check against every
 # seeded change (scratch worktree of /repo's HEAD + VERIF_REPO_DIR) from the
 # directory it is started in (a snapshot made by `vp run`, or /verif) and
-# writes one line per seed to sweep_results.txt there.
+# writes one line per seed to sweep_results.txt there. SWEEP_FILTER=<regex> restricts the seeds.
 V=$(pwd)
 [ -x engine/gosym ] || sh bin/setup || exit 2
 out=$V/sweep_results.txt; : > $out
 mkdir -p /tmp/sweep
-for s in $(ls seeded | grep -v RESULTS); do
+for s in $(ls seeded | grep -v RESULTS | grep -E "${SWEEP_FILTER:-.}"); do
   id=${s%%-*}
   wt=/tmp/sweep/$s
   git -C /repo worktree remove --force $wt 2>/dev/null; rm -rf $wt
